@@ -12,12 +12,15 @@ import (
 	"os"
 	"os/exec"
 	"path/filepath"
+	"sort"
 	"strings"
 
 	"github.com/google/reftable"
 )
 
 func init() { props["c15"] = runCTwin }
+
+var ctwinDrv *cdrv
 
 type cdrv struct {
 	cmd *exec.Cmd
@@ -141,9 +144,165 @@ func runCTwin(c *ctx) error {
 		hist["go:"+strings.SplitN(wres, ":", 2)[0]+" c:"+st]++
 		c.emit("ctable", args, leg1+"#"+st+"#"+cbytes+"#"+leg2)
 	}
+	c.stats["write_status_hist"] = hist
+	// stack directories, leg 1: the Go stack writes (adds, multi-table Additions, compactions), C reads
+	ctwinDrv = d
+	if err := runHistories(c, "c15"); err != nil {
+		return err
+	}
+	// leg 2: the C stack writes (adds with its own auto-compaction, compact_all), Go reads
+	if err := cStackWrites(c, d); err != nil {
+		return err
+	}
 	d.in.Close()
 	d.cmd.Wait()
-	c.stats["write_status_hist"] = hist
+	return nil
+}
+
+func cStackWrites(c *ctx, d *cdrv) error {
+	n := 120
+	if c.thorough() {
+		n = 2500
+	}
+	hist := map[string]int{}
+	for i := 0; i < n; i++ {
+		var cfg tcfg
+		cfg.SHA256 = c.rng.Intn(4) == 0
+		cfg.BlockSize = uint32(256 + c.rng.Intn(300))
+		if c.rng.Intn(3) == 0 {
+			cfg.BlockSize = 0
+		}
+		cfg.Restart = c.rng.Intn(5)
+		cfg.Unaligned = c.rng.Intn(5) == 0
+		cfg.Exact = c.rng.Intn(3) == 0
+		cfg.SkipIdx = c.rng.Intn(3) == 0
+		hs := cfg.hashSize()
+		dir := filepath.Join(c.work, fmt.Sprintf("cs%d", i))
+		os.MkdirAll(dir, 0755)
+		var pool []string
+		seen := map[string]bool{}
+		for len(pool) < 3+c.rng.Intn(6) {
+			nm := "refs/" + genName(c.rng)
+			if len(nm) < 60 && !seen[nm] && !strings.Contains(nm, "\x00") {
+				seen[nm] = true
+				pool = append(pool, nm)
+			}
+		}
+		var oids [][]byte
+		for j := 0; j < 3; j++ {
+			h := make([]byte, hs)
+			c.rng.Read(h)
+			oids = append(oids, h)
+		}
+		type lkey struct {
+			n string
+			u uint64
+		}
+		var liveLogs []lkey
+		ui := uint64(1)
+		nops := 3 + c.rng.Intn(12)
+		var hops, cops []string
+		for j := 0; j < nops; j++ {
+			if j > 1 && c.rng.Intn(6) == 0 {
+				hops = append(hops, "CA")
+				cops = append(cops, "CA")
+				continue
+			}
+			var o hop
+			o.kind = "A"
+			pick := map[string]bool{}
+			for k := 0; k < 1+c.rng.Intn(3); k++ {
+				pick[pool[c.rng.Intn(len(pool))]] = true
+			}
+			var nm []string
+			for k := range pick {
+				nm = append(nm, k)
+			}
+			if j == 0 {
+				// an anchor that is never deleted: the stack never becomes empty, so both
+				// implementations keep counting update indices from the same place
+				nm = append(nm, "refs/~anchor")
+			}
+			sort.Strings(nm)
+			for _, k := range nm {
+				rec := reftable.RefRecord{RefName: k, UpdateIndex: ui}
+				kind := c.rng.Intn(6)
+				if k == "refs/~anchor" {
+					kind = 5
+				}
+				switch kind {
+				case 0, 1:
+				case 2:
+					rec.Target = pool[c.rng.Intn(len(pool))]
+				case 3:
+					rec.Value = oids[c.rng.Intn(3)]
+					rec.TargetValue = oids[c.rng.Intn(3)]
+				default:
+					rec.Value = oids[c.rng.Intn(3)]
+				}
+				o.refs = append(o.refs, rec)
+			}
+			set := map[lkey]bool{}
+			for k := 0; k < c.rng.Intn(3); k++ {
+				key := lkey{pool[c.rng.Intn(len(pool))], ui}
+				if len(liveLogs) > 0 && c.rng.Intn(3) == 0 {
+					key = liveLogs[c.rng.Intn(len(liveLogs))]
+				}
+				set[key] = true
+			}
+			var ks []lkey
+			for k := range set {
+				ks = append(ks, k)
+			}
+			sort.Slice(ks, func(a, b int) bool {
+				return logKey(&reftable.LogRecord{RefName: ks[a].n, UpdateIndex: ks[a].u}) < logKey(&reftable.LogRecord{RefName: ks[b].n, UpdateIndex: ks[b].u})
+			})
+			for _, k := range ks {
+				l := reftable.LogRecord{RefName: k.n, UpdateIndex: k.u}
+				if k.u == ui { // else: a tombstone for an older entry
+					liveLogs = append(liveLogs, k)
+					l.New = oids[c.rng.Intn(3)]
+					if c.rng.Intn(2) == 0 {
+						l.Old = oids[c.rng.Intn(3)]
+					}
+					l.Name = "n"
+					l.Email = "e"
+					l.Time = uint64(1000 + c.rng.Intn(10))
+					l.Message = []string{"m", "msg\n", " sp ", "x\n\n"}[c.rng.Intn(4)]
+					if cfg.Exact && c.rng.Intn(3) == 0 {
+						l.Message = "two\nlines"
+					}
+				}
+				o.logs = append(o.logs, l)
+			}
+			hops = append(hops, o.String())
+			cops = append(cops, "A~"+orDash(fmtRefs(o.refs))+"~"+orDash(fmtLogs(o.logs)))
+			ui++
+		}
+		cst := d.ask(fmt.Sprintf("SW %s %s %s", dir, cfg, strings.Join(cops, "!")))
+		gocfg := cfg.cfg()
+		gocfg.SkipNameCheck = true
+		view := "openerr"
+		func() {
+			defer func() {
+				if r := recover(); r != nil {
+					view = "panic"
+				}
+			}()
+			st, err := reftable.NewStack(dir, gocfg)
+			if err == nil {
+				view = observe(st, dir, "ok")
+				st.Close()
+			}
+		}()
+		hist["c-statuses:"+cst]++
+		os.RemoveAll(dir)
+		c.emit("cstack_cg", fmt.Sprintf("%s|0|%s", cfg, strings.Join(hops, "!")), cst+"#"+view)
+	}
+	if len(hist) > 40 {
+		hist = map[string]int{"(many)": len(hist)}
+	}
+	c.stats["c_stack_status_hist"] = hist
 	return nil
 }
 
